@@ -555,22 +555,176 @@ Qed.
 Lemma mlen_zeros n : mlen (zeros n) = Z.max 0 n.
 Proof. unfold mlen, zeros. rewrite repeat_length. lia. Qed.
 
+Lemma list_mono (G : lfield -> pyval -> Z -> res Z) :
+  (forall f x o o2, G f x o = Ok o2 -> o <= o2) ->
+  forall l fs o n, struct_from_list G fs l o = Ok n -> o <= n.
+Proof.
+  intros HG. induction l as [|x l IH]; intros fs o n; cbn [struct_from_list].
+  - intros E. inversion E. lia.
+  - destruct (skip_ignored fs) as [|f fs2]; [discriminate|].
+    destruct (G f x o) as [o2|] eqn:E; cbn [bind]; [|discriminate].
+    intros Hs. apply HG in E. apply IH in Hs. lia.
+Qed.
+
+Lemma dict_mono (G : lfield -> pyval -> Z -> res Z) fs :
+  (forall f x o o2, G f x o = Ok o2 -> o <= o2) ->
+  forall kv o n, struct_from_dict G fs kv o = Ok n -> o <= n.
+Proof.
+  intros HG. induction kv as [|[k x] kv IH]; intros o n; cbn [struct_from_dict].
+  - intros E. inversion E. lia.
+  - destruct (if k <? 0 then None else nth_error fs (Z.to_nat k)) as [f|]; [|discriminate].
+    destruct (G f x o) as [o2|] eqn:E; cbn [bind]; [|discriminate].
+    intros Hs. apply HG in E. apply IH in Hs. lia.
+Qed.
+
+Lemma list_noseg (G : lfield -> pyval -> Z -> res Z) :
+  (forall f x o, G f x o <> Err SegV) ->
+  forall l fs o, struct_from_list G fs l o <> Err SegV.
+Proof.
+  intros HG. induction l as [|x l IH]; intros fs o; cbn [struct_from_list]; [discriminate|].
+  destruct (skip_ignored fs) as [|f fs2]; [discriminate|].
+  pose proof (HG f x o). destruct (G f x o) as [o2|e]; cbn [bind]; [apply IH|congruence].
+Qed.
+
+Lemma dict_noseg (G : lfield -> pyval -> Z -> res Z) fs :
+  (forall f x o, G f x o <> Err SegV) ->
+  forall kv o, struct_from_dict G fs kv o <> Err SegV.
+Proof.
+  intros HG. induction kv as [|[k x] kv IH]; intros o; cbn [struct_from_dict]; [discriminate|].
+  destruct (if k <? 0 then None else nth_error fs (Z.to_nat k)) as [f|]; [|discriminate].
+  pose proof (HG f x o). destruct (G f x o) as [o2|e]; cbn [bind]; [apply IH|congruence].
+Qed.
+
+Lemma add_varsize_noseg off isz len o : add_varsize_length off isz len o <> Err SegV.
+Proof. unfold add_varsize_length. destruct (SSIZE_MAX <? off + isz * len); discriminate. Qed.
+
+Lemma size_field_mono rec fld x o o2 : size_field rec fld x o = Ok o2 -> o <= o2.
+Proof.
+  unfold size_field. destruct (is_flex (lf_type fld)).
+  - destruct (get_new_array_length x); cbn [bind]; [|discriminate].
+    intros E. apply add_varsize_ok in E. lia.
+  - destruct (agg_var (lf_type fld) && negb (is_cdata x)).
+    + destruct (rec _ x _); cbn [bind]; [|discriminate].
+      intros E. apply add_varsize_ok in E. lia.
+    + intros E. inversion E. lia.
+Qed.
+
 Lemma size_struct_lower fuel fs v opt n : size_struct fuel fs v opt = Ok n -> opt <= n.
 Proof.
-  revert fs v opt n. induction fuel as [|f IH]; intros fs v opt n; cbn [size_struct]; [discriminate|].
-  assert (Hm : forall fld x o o', size_field (size_struct f) fld x o = Ok o' -> o <= o').
-  { intros fld x o o'. unfold size_field.
-    destruct (is_flex (lf_type fld)).
-    - destruct (get_new_array_length x); cbn [bind]; [|discriminate].
-      intros E. apply add_varsize_ok in E. lia.
-    - destruct (agg_var (lf_type fld) && negb (is_cdata x)).
-      + destruct (size_struct f _ x _); cbn [bind]; [|discriminate].
-        intros E. apply add_varsize_ok in E. lia.
-      + intros E. inversion E. lia. }
-  destruct v; try discriminate; cbn [struct_from_object]; intros Hs.
-  - refine (proj1 (joint_list fs (size_field (size_struct f)) (fun _ _ m => Ok m) [] 0 opt _ l fs opt [] n
-                    (incl_refl _) (Z.le_refl _) eq_refl Hs _)).
-    + intros fld x o o' m' _ _ E. split; [eapply Hm; exact E|]. intros. apply safe_ok.
-    + admit.
-  - admit.
-Admitted.
+  destruct fuel as [|f]; cbn [size_struct]; [discriminate|].
+  destruct v; try discriminate; cbn [struct_from_object].
+  - apply list_mono. intros fld x o o2. apply size_field_mono.
+  - apply dict_mono. intros fld x o o2. apply size_field_mono.
+Qed.
+
+(* the sizing pass writes nothing *)
+Lemma size_struct_noseg fuel : forall fs v opt, size_struct fuel fs v opt <> Err SegV.
+Proof.
+  induction fuel as [|f IH]; intros fs v opt; cbn [size_struct]; [discriminate|].
+  assert (HG : forall fld x o, size_field (size_struct f) fld x o <> Err SegV).
+  { intros fld x o. unfold size_field. destruct (is_flex (lf_type fld)).
+    - pose proof (gnal_err x). destruct (get_new_array_length x) as [lb|e]; cbn [bind];
+        [apply add_varsize_noseg|]. intros E. inversion E. subst e. exact (H SegV eq_refl eq_refl).
+    - destruct (agg_var (lf_type fld) && negb (is_cdata x)); [|discriminate].
+      pose proof (IH (agg_fields (lf_type fld)) x (lsize (lf_type fld))).
+      destruct (size_struct f _ x _); cbn [bind]; [apply add_varsize_noseg|congruence]. }
+  destruct v; try discriminate; cbn [struct_from_object].
+  - apply list_noseg. exact HG.
+  - apply dict_noseg. exact HG.
+Qed.
+
+Lemma gnal_nonneg x cap b : get_new_array_length x = Ok (cap, b) -> 0 <= cap.
+Proof.
+  unfold get_new_array_length. destruct x; try discriminate; intros E.
+  - destruct (Z.ltb_spec z 0); [discriminate|]. destruct (SSIZE_MAX <? z); [discriminate|]. inversion E. lia.
+  - inversion E. pose proof (mlen_nonneg b0). lia.
+  - inversion E. pose proof (mlen_nonneg cps). lia.
+  - inversion E. apply mlen_nonneg.
+Qed.
+
+(* ffi.new("T *", init) never writes outside the block it allocated *)
+Theorem new_ptr_safe fuel t init : wf_type t = true -> no_var_items t = true ->
+  new_bytes fuel (NewPtr t) init <> Err SegV.
+Proof.
+  intros Hwf Hnv. unfold new_bytes. cbn [alloc_size new_init new_target].
+  destruct (Z.ltb_spec (lsize t) 0) as [|Hsz]; [cbn; discriminate|].
+  set (datasize := match t with LPrim KChar _ => lsize t * 2 | _ => lsize t end).
+  assert (Hds : lsize t <= datasize) by (subst datasize; destruct t as [[] ?| |]; lia).
+  replace (match init with VInt _ => init | _ => init end) with init by (destruct init; reflexivity).
+  destruct (agg_var t && negb (match init with VNone => true | _ => false end)) eqn:Ev.
+  - rewrite andb_true_iff, negb_true_iff in Ev. destruct Ev as (Ev & Hinit).
+    destruct t as [| |size var fs]; try discriminate. cbn in Ev. subst var. cbn [agg_fields lsize] in *.
+    subst datasize.
+    pose proof (size_struct_noseg fuel fs init size) as Hns.
+    destruct (size_struct fuel fs init size) as [n|e] eqn:Es; cbn [bind]; [|congruence].
+    destruct (MAX_ALLOC <? n); [discriminate|].
+    pose proof (size_struct_lower _ _ _ _ _ Es).
+    assert (Hsafe : safe (fill fuel (LAgg size true fs) 0 init (zeros n)) (zeros n)).
+    { apply (P_all fuel fuel (le_n _) _ 0 init (zeros n) n); auto; try lia.
+      - cbn [need]. destruct (is_cdata init) eqn:Ec; [|exact Es].
+        destruct init; try discriminate. destruct fuel; cbn in Es; discriminate.
+      - rewrite mlen_zeros. lia. }
+    destruct init; try (exact (proj1 Hsafe)). discriminate.
+  - cbn [bind]. destruct (MAX_ALLOC <? datasize); [discriminate|].
+    destruct (match init with VNone => true | _ => false end) eqn:Hnone;
+      [destruct init; try discriminate Hnone; discriminate|].
+    assert (Hhv : has_var t = false).
+    { destruct t as [| |size var fs]; [reflexivity| |].
+      - cbn [no_var_items] in Hnv. rewrite andb_true_iff, negb_true_iff in Hnv. cbn. tauto.
+      - cbn in *. destruct var; [|reflexivity]. discriminate Ev. }
+    assert (Hsafe : safe (fill fuel t 0 init (zeros datasize)) (zeros datasize)).
+    { apply (P_all fuel fuel (le_n _) t 0 init (zeros datasize) (lsize t)); auto; try lia.
+      - apply need_nonvar. exact Hhv.
+      - rewrite mlen_zeros. lia. }
+    destruct init; try (exact (proj1 Hsafe)). discriminate.
+Qed.
+
+(* ffi.new("T[len]", init) and ffi.new("T[]", init) *)
+Theorem new_arr_safe fuel item len init :
+  wf_type (LArr item len) = true -> no_var_items (LArr item len) = true ->
+  new_bytes fuel (NewArr item len) init <> Err SegV.
+Proof.
+  intros Hwf Hnv. unfold new_bytes. cbn [alloc_size new_init new_target].
+  pose proof Hwf as Hwf'. cbn [wf_type] in Hwf'. rewrite !andb_true_iff in Hwf'.
+  destruct Hwf' as ((Hwi & Hisz) & Hlen). apply Z.ltb_lt in Hisz.
+  pose proof Hnv as Hnv'. cbn [no_var_items] in Hnv'. rewrite andb_true_iff, negb_true_iff in Hnv'.
+  destruct Hnv' as (Hhv & Hni).
+  destruct (Z.ltb_spec len 0) as [Hneg|Hpos].
+  - pose proof (gnal_err init) as Hge.
+    destruct (get_new_array_length init) as [[cap b]|e] eqn:Eg; cbn [bind fst];
+      [|intros E; inversion E; subst e; exact (Hge SegV eq_refl eq_refl)].
+    destruct (SSIZE_MAX <? cap * lsize item); [discriminate|]. cbn [bind].
+    destruct (MAX_ALLOC <? cap * lsize item); [discriminate|].
+    pose proof (gnal_nonneg _ _ _ Eg) as Hcap.
+    assert (Hsafe : safe (fill fuel (LArr item len) 0 init (zeros (cap * lsize item))) (zeros (cap * lsize item))).
+    { destruct fuel as [|f]; [apply safe_err; discriminate|]. cbn [fill].
+      apply (fill_array_safe _ item len cap); try lia; eauto.
+      - rewrite mlen_zeros. nia.
+      - intros x off2 m2 Ho2 Hb2. apply (P_all f f (le_n _) item off2 x m2 (lsize item)); auto; try lia.
+        apply need_nonvar. exact Hhv. }
+    destruct init; try (exact (proj1 Hsafe)); discriminate.
+  - cbn [bind]. destruct (MAX_ALLOC <? len * lsize item); [discriminate|].
+    assert (Hsafe : safe (fill fuel (LArr item len) 0 init (zeros (len * lsize item))) (zeros (len * lsize item))).
+    { apply (P_all fuel fuel (le_n _) (LArr item len) 0 init _ (len * lsize item)); auto; try lia.
+      - cbn [lsize]. destruct (Z.ltb_spec len 0); [lia|nia].
+      - cbn [need lsize]. destruct (Z.ltb_spec len 0); [lia|reflexivity].
+      - rewrite mlen_zeros. nia. }
+    destruct init; try (exact (proj1 Hsafe)); discriminate.
+Qed.
+
+Theorem sizing_dominates fuel T init :
+  wf_type (new_target T) = true -> no_var_items (new_target T) = true ->
+  new_bytes fuel T init <> Err SegV.
+Proof.
+  destruct T as [t|item len]; cbn [new_target]; [apply new_ptr_safe|apply new_arr_safe].
+Qed.
+
+(* an assignment into a block that is large enough for the type stays inside it and keeps its
+   size: the frame half of "zero except where init writes" (for types that are not var-sized) *)
+Theorem assign_safe fuel t off init m :
+  wf_type t = true -> no_var_items t = true -> has_var t = false -> 0 <= lsize t ->
+  0 <= off -> off + lsize t <= mlen m ->
+  safe (fill fuel t off init m) m.
+Proof.
+  intros. apply (P_all fuel fuel (le_n _) t off init m (lsize t)); auto. apply need_nonvar. assumption.
+Qed.
